@@ -274,6 +274,17 @@ class Evaluator:
                 self.emit(st, "getattr", (b, n.attr), n)
             if ("self." + n.attr) in st.env:
                 return st.env["self." + n.attr]
+        if n.attr == "T" and isinstance(n.ctx, ast.Load) and b[0] not in ("glob",):
+            # x.T is np.transpose(x); np.asarray(x).T is np.transpose(x) too (transpose converts its argument)
+            if b[0] == "call" and b[1] == ("glob", "numpy.asarray") and len(b[2]) == 1 and not b[3]:
+                b = b[2][0]
+            base = ("call", ("glob", "numpy.transpose"), (b,), (), 0)
+            key = canon(base)
+            k = st.ordinals.get(key, 0)
+            st.ordinals[key] = k + 1
+            t = ("call", ("glob", "numpy.transpose"), (b,), (), k)
+            self.emit(st, "call", (t,), n)
+            return t
         return ("attr", b, n.attr)
 
     def e_Tuple(self, n, st):
@@ -470,6 +481,8 @@ class Evaluator:
         # "...{}".format(a, b)
         if f[0] == "attr" and f[2] == "format" and is_const(f[1]) and isinstance(f[1][1], str) and not kws:
             return ("fmt", f[1], args)
+        if q == "numpy.transpose" and len(args) == 1 and not kws and args[0][0] == "call" and args[0][1] == ("glob", "numpy.asarray") and len(args[0][2]) == 1 and not args[0][3]:
+            args = (args[0][2][0],)
         # np.shape(x) / np.ndim(x) / np.size(x) are recorded as the attribute every array has (x.shape / x.ndim / x.size)
         if q in ("numpy.shape", "numpy.ndim", "numpy.size") and len(args) == 1 and not kws:
             return ("attr", args[0], q.rsplit(".", 1)[1])
